@@ -25,10 +25,13 @@ type C02Spec struct {
 	MaxTrials int       `json:"max_trials,omitempty"`
 }
 
+// knobZeroTrials: the caller really means MaxTrials = 0 (otherwise 0 is "leave the default").
+var knobZeroTrials bool
+
 func withKnobs(maxTrials int, maxFail float64, f func()) {
 	oldT, oldF := spg.MaxTrials, spg.MaxFailRate
-	if maxTrials > 0 {
-		spg.MaxTrials = maxTrials
+	if maxTrials != 0 || knobZeroTrials {
+		spg.MaxTrials = maxTrials // zero and negative values are legal assignments to the exported knob
 	}
 	if maxFail > 0 {
 		spg.MaxFailRate = maxFail
@@ -278,6 +281,20 @@ func runC02(c *Ctx, si interface{}) {
 		if ch := genOp(NewTape(TapeSpec{Mode: "choice", Seed: mix(s.Seed, "pilot"), Default: "random", Chunk: "rand3"}), rec); ch.Kind != "ok" || ch.Pw.S != p.pilot.Pw.S {
 			c.Violate("chunking-changes-result", "", "%s: the pilot stream gives %q delivered whole and %s delivered in 1-3 byte pieces", s.Cfg, p.pilot.Pw.S, ch.brief())
 			return
+		}
+		// a stream on which every candidate misses a requirement: no string outside S may come back
+		if bad := firstFailingPath(p.m, rec, s.Seed); bad != nil {
+			var choices []uint32
+			for k := 0; k < spg.MaxTrials+2; k++ {
+				choices = append(choices, bad...)
+			}
+			af := genOp(NewTape(TapeSpec{Mode: "choice", Choices: choices, Default: "zero"}), rec)
+			c.T(af.brief())
+			c.Probe("all_candidates_fail_stream", 1)
+			if af.Kind == "ok" && !p.S[af.Pw.S] {
+				c.Violate("support", "", "%s: on a stream where every candidate misses a requirement Generate returned %q, which the recipe does not allow", s.Cfg, af.Pw.S)
+				return
+			}
 		}
 		cont := append(append(append([]uint32{}, p.good...), p.good...), p.good...)
 		r := Sub(s.Seed, "levels")
